@@ -406,7 +406,7 @@ pub fn oracle(c: &Case, o: &Outcome) -> Vec<(String, String)> {
 
 /// class of a fault script: fault kinds on chunk types, ordinals and sides dropped (sorted)
 pub fn script_class(fs: &[Fault]) -> String {
-    let mut v: Vec<String> = fs.iter().map(|f| { let a = match f.action { Action::Drop => "drop", Action::Dup => "dup", Action::Delay(_) => "delay", Action::Late(_) => "late" };
+    let mut v: Vec<String> = fs.iter().map(|f| { let a = match f.action { Action::Drop => "drop", Action::Dup => "dup", Action::Delay(_) => "delay", Action::Late(_) => "late", Action::DropN(_) => "dropn" };
         format!("{a}({})", ct_name(f.ctype)) }).collect();
     v.sort(); v.dedup();
     if v.is_empty() { "none".into() } else { v.join("+") }
